@@ -62,13 +62,14 @@ def digitChar (d : Nat) : Char := Char.ofNat (d + 48)
 
 def natOfDigits (ds : List Char) : Nat := ds.foldl (fun a c => 10 * a + digitVal c) 0
 
-/-- decimal digits, most significant first. `k` is fuel (`k ≥ n` is always enough; structural
-    recursion keeps the function evaluable inside proofs). -/
+/-- decimal digits, most significant first. `k` is fuel: an upper bound of the number of
+    digits (`n < 2^k` is enough; structural recursion on a small fuel keeps the function
+    evaluable inside proofs). -/
 def natDigitsAux : Nat → Nat → List Char
   | 0, n => [digitChar (n % 10)]
   | k + 1, n => if n < 10 then [digitChar n] else natDigitsAux k (n / 10) ++ [digitChar (n % 10)]
 
-def natDigits (n : Nat) : List Char := natDigitsAux n n
+def natDigits (n : Nat) : List Char := natDigitsAux (n.log2 + 1) n
 
 /-- what `~w` prints for an integer -/
 def renderInt (i : Int) : List Char :=
